@@ -50,6 +50,29 @@ Theorem c13_pruned_bound :
   (1 - inject_Z (Z.of_nat n) * tol <= total out <= 1)%Q.
 Proof. exact simulate_pruned_bound. Qed.
 
+(* any tolerance >= 0, p1 a probability: EVERY outcome's returned probability is its true (path-law)
+   probability up to the truncation loss: never more, and at most n * tol less (n as above).  This is the
+   per-outcome statement at the tolerance the source actually uses (see c13_qsim_outcome_bound). *)
+Theorem c13_outcome_bound :
+  forall (gate state : Type) (apply : gate -> list nat -> state -> state) (p1 : state -> nat -> Q)
+         (proj : state -> nat -> bool -> state) (flipx : state -> nat -> state) (tol : Q),
+  (forall s q, 0 <= p1 s q <= 1)%Q -> (0 <= tol)%Q -> forall (s0 : state) (p : prog gate) out n,
+  simulate apply p1 proj flipx tol s0 p = Ok out -> pruned_total apply p1 proj flipx tol s0 p = Ok n ->
+  forall k, (lookup (path_law apply p1 proj flipx p s0 0%N) k - inject_Z (Z.of_nat n) * tol <= lookup out k
+             <= lookup (path_law apply p1 proj flipx p s0 0%N) k)%Q.
+Proof. exact simulate_outcome_bound. Qed.
+
+(* the same for every event / [0,1]-valued function of the outcome *)
+Theorem c13_event_bound :
+  forall (gate state : Type) (apply : gate -> list nat -> state -> state) (p1 : state -> nat -> Q)
+         (proj : state -> nat -> bool -> state) (flipx : state -> nat -> state) (tol : Q),
+  (forall s q, 0 <= p1 s q <= 1)%Q -> (0 <= tol)%Q -> forall phi : N -> Q, (forall k, 0 <= phi k <= 1)%Q ->
+  forall (s0 : state) (p : prog gate) out n,
+  simulate apply p1 proj flipx tol s0 p = Ok out -> pruned_total apply p1 proj flipx tol s0 p = Ok n ->
+  (ev phi (path_law apply p1 proj flipx p s0 0%N) - inject_Z (Z.of_nat n) * tol <= ev phi out
+   <= ev phi (path_law apply p1 proj flipx p s0 0%N))%Q.
+Proof. exact simulate_event_bound. Qed.
+
 (* every reported outcome has positive probability (with c13_pushforward: keys = support at tolerance 0) *)
 Theorem c13_support :
   forall (gate state : Type) (apply : gate -> list nat -> state -> state) (p1 : state -> nat -> Q)
@@ -99,11 +122,13 @@ Definition sites_of (f : string) : nat :=
 
 (* tie to the source: the tolerance of the model is the module constant; it is non-negative and tiny
    (so that the truncation bound is far below the 1e-9 used by the oracle); both truncation tests have the
-   modelled shape np.isclose(p, 0, atol=_TOLERANCE); the function has exactly the two modelled refusals *)
+   modelled shape np.isclose(<name>, 0, atol=_TOLERANCE); the function still has (at least) the two modelled
+   refusals -- an ADDED refusal is left to the correspondence (it shows up there iff it hits a circuit of the
+   property's domain) *)
 Theorem c13_facts :
   (0 <= sim_tolerance)%Q /\ (sim_tolerance <= 1 # 1000000000000000)%Q /\ sim_isclose_sites = 2 /\
-  sites_of "utils.simulation:simulate_statevector_outcomes" = 2.
-Proof. repeat split; try reflexivity; unfold Qle; simpl; lia. Qed.
+  2 <= sites_of "utils.simulation:simulate_statevector_outcomes".
+Proof. repeat split; try reflexivity; try (unfold Qle; simpl; lia); vm_compute; lia. Qed.
 
 (* with the source's tolerance on the QSim instance: the returned mass is within n * _TOLERANCE of 1 *)
 Theorem c13_qsim_bound : forall nq (p : qprog) out n,
@@ -112,6 +137,16 @@ Theorem c13_qsim_bound : forall nq (p : qprog) out n,
 Proof.
   intros nq p out n. unfold qsimulate, qpruned.
   apply (simulate_pruned_bound qgate vec qapply qp1 qproj qflipx sim_tolerance qp1_range (proj1 c13_facts)).
+Qed.
+
+(* the per-outcome statement at the source's tolerance, closed form on the exact simulator: with
+   n truncated branches every outcome is at most n * _TOLERANCE (n * 1e-16) below its true probability *)
+Theorem c13_qsim_outcome_bound : forall nq (p : qprog) out n,
+  qsimulate sim_tolerance nq p = Ok out -> qpruned sim_tolerance nq p = Ok n ->
+  forall k, (lookup (qpath nq p) k - inject_Z (Z.of_nat n) * sim_tolerance <= lookup out k <= lookup (qpath nq p) k)%Q.
+Proof.
+  intros nq p out n. unfold qsimulate, qpruned, qpath.
+  apply (simulate_outcome_bound qgate vec qapply qp1 qproj qflipx sim_tolerance qp1_range (proj1 c13_facts)).
 Qed.
 
 (* ---- non-vacuity ---- *)
@@ -141,6 +176,12 @@ Example c13_ex_order :
   = Ok [(1%N, (1 # 2)%Q); (0%N, (1 # 2)%Q)].
 Proof. vm_compute. reflexivity. Qed.
 
+(* a non-Clifford circuit (Toffoli): conditional probabilities 1/4, 5/6, 1/6 *)
+Example c13_ex_ccx :
+  canon (qsimulate sim_tolerance 3 [PGate Gh [0]; PGate Gh [1]; PGate Gccx [1; 0; 2]; PGate Gh [0]; PMeasure 2 0; PMeasure 0 1])
+  = Ok [(0%N, (5 # 8)%Q); (1%N, (1 # 8)%Q); (2%N, (1 # 8)%Q); (3%N, (1 # 8)%Q)].
+Proof. vm_compute. reflexivity. Qed.
+
 (* deterministic branch: one child truncated at every measurement, nothing lost *)
 Example c13_ex_pruned :
   canon (qsimulate sim_tolerance 1 [PGate Gx [0]; PMeasure 0 2; PReset 0; PMeasure 0 0]) = Ok [(4%N, 1%Q)] /\
@@ -156,6 +197,8 @@ Print Assumptions c13_pushforward.
 Print Assumptions c13_expectation.
 Print Assumptions c13_total.
 Print Assumptions c13_pruned_bound.
+Print Assumptions c13_outcome_bound.
+Print Assumptions c13_event_bound.
 Print Assumptions c13_support.
 Print Assumptions c13_refuses.
 Print Assumptions c13_never_crashes.
@@ -163,3 +206,4 @@ Print Assumptions c13_sampler.
 Print Assumptions c13_qsim_instance.
 Print Assumptions c13_facts.
 Print Assumptions c13_qsim_bound.
+Print Assumptions c13_qsim_outcome_bound.
